@@ -34,6 +34,20 @@ type InternalCron struct {
 	Cron *Cron
 }
 
+// eventJobId makes the id for the internal job of a scheduled event.
+//
+// One InternalCron typically serves every location of a System, and
+// rule ids are only unique within a location.  So the job id includes
+// the name of the location (if any).
+func eventJobId(ctx *core.Context, id string) string {
+	if ctx != nil {
+		if loc := ctx.Location(); loc != nil {
+			return loc.Name + "\x00" + id
+		}
+	}
+	return id
+}
+
 func (c *InternalCron) ScheduleEvent(ctx *core.Context, se *ScheduledEvent) error {
 	sched, _, err := ParseSchedule(se.Schedule)
 	if err != nil {
@@ -57,7 +71,7 @@ func (c *InternalCron) ScheduleEvent(ctx *core.Context, se *ScheduledEvent) erro
 		core.Log(core.DEBUG|CRON, ctx, "InternalCron.ScheduleEvent", "findrules", *fr)
 		return nil
 	}
-	return c.Cron.Add(ctx, se.Id, sched, fn)
+	return c.Cron.Add(ctx, eventJobId(ctx, se.Id), sched, fn)
 }
 
 func (c *InternalCron) Schedule(ctx *core.Context, sw *ScheduledWork) error {
@@ -102,7 +116,13 @@ func (c *InternalCron) Schedule(ctx *core.Context, sw *ScheduledWork) error {
 }
 
 func (c *InternalCron) Rem(ctx *core.Context, id string) (bool, error) {
-	return c.Cron.Rem(ctx, id)
+	// The job is either a scheduled event (see eventJobId) or
+	// generic scheduled work.
+	found, err := c.Cron.Rem(ctx, eventJobId(ctx, id))
+	if err == nil && !found {
+		found, err = c.Cron.Rem(ctx, id)
+	}
+	return found, err
 }
 
 func (c *InternalCron) Persistent() bool {
